@@ -59,11 +59,13 @@ def gen_cases(ctx, kind):
             plan.append((reps + k // len(members), no, cc))
             have += 1
             k += 1
-    variants = ["generic", "orth", "pseudo"]
+    variants = ["generic", "orth", "pseudo", "long"]
     for idx, (rep, no, cc) in enumerate(plan):
         s = int(rng.integers(0, 2 ** 31))
         target = int(rng.integers(30, 300 if ctx.tier == "quick" else 600))
-        variant = variants[(rep + no + ctx.seed) % 3]
+        variant = variants[(rep + no + ctx.seed) % 4]
+        if variant == "long":
+            target = int(rng.integers(500, 900))
         big = ctx.thorough() and rep in (1, 2, 3)
         if ctx.mine(idx):
             yield kind, {"no": no, "cc": cc, "variant": ["generic", "orth", "pseudo"][rep % 3] if big else variant, "s": s,
@@ -85,6 +87,8 @@ def prepare(ctx, p):
         return None
     cell = hkl.cell_for(rng, o.crystal_system, o.cell_choice, p["variant"])
     rhomb = o.cell_choice == "rhombohedral"
+    if p["variant"] == "long":
+        p = dict(p, target=max(p["target"], 500))
     target = p["target"]
     if target < 2500:
         # the walk only visits one asymmetric unit: for high symmetry a much larger shell costs the same
@@ -94,7 +98,15 @@ def prepare(ctx, p):
         return None
     smin, smax = shell
     orc = hkl.Oracle(ops, cell, smin, smax)
-    return {"o": o, "ops": ops, "cell": cell, "smin": smin, "smax": smax, "orc": orc, "rhomb": rhomb, "rng": rng}
+    # the cell as the caller holds it: one object (list or float64 array) handed to every call of the case
+    held = np.array(cell, float) if p["s"] % 3 else list(cell)
+    return {"o": o, "ops": ops, "cell": cell, "held": held, "smin": smin, "smax": smax, "orc": orc, "rhomb": rhomb, "rng": rng}
+
+
+def cell_untouched(ctx, c, label):
+    same = bool(np.array_equal(np.asarray(c["held"], float), np.asarray(c["cell"], float)))
+    ctx.mon.check("pure:genhkl leaves the caller's cell as it was", same, observed=None if same else c["held"],
+                  expected=None if same else c["cell"], detail=label)
 
 
 def rows_to_tuples(rows):
@@ -205,7 +217,7 @@ def case_all(ctx, p):
     tr.on = True
     np.random.seed(int(c["rng"].integers(0, 2 ** 31)))
     try:
-        rows = mod.genhkl_all(c["cell"], c["smin"], c["smax"], sgno=o.no, cell_choice=p["cc"])
+        rows = mod.genhkl_all(c["held"], c["smin"], c["smax"], sgno=o.no, cell_choice=p["cc"])
     except Exception as exc:
         mon.check(name, False, observed=repr(exc), detail={"group": o.name, "cell": c["cell"], "shell": [c["smin"], c["smax"]]})
         tr.on = False
@@ -224,10 +236,11 @@ def case_all(ctx, p):
         if c["rhomb"] and p["s"] % 2:
             # the other documented way to ask for the rhombohedral setting: plain name + explicit cell_choice
             plain = o.name[:-1] if o.name[-1:] in "rR" else o.name
-            r2 = mod.genhkl_all(c["cell"], c["smin"], c["smax"], sgname=plain, cell_choice="rhombohedral")
+            r2 = mod.genhkl_all(c["held"], c["smin"], c["smax"], sgname=plain, cell_choice="rhombohedral")
         else:
-            r2 = mod.genhkl_all(c["cell"], c["smin"], c["smax"], sgname=o.name)
-        r3 = mod.genhkl_all(np.array(c["cell"]), c["smin"], c["smax"], sgno=o.no, cell_choice=p["cc"], output_stl=True)   # state left as it is
+            r2 = mod.genhkl_all(c["held"], c["smin"], c["smax"], sgname=o.name)
+        r3 = mod.genhkl_all(c["held"], c["smin"], c["smax"], sgno=o.no, cell_choice=p["cc"], output_stl=True)   # state left as it is
+        cell_untouched(ctx, c, "%s.genhkl_all" % m)
     except Exception as exc:
         mon.check(name2, False, observed=repr(exc))
         return
